@@ -121,7 +121,10 @@ func (ms *modelSession) preferSmall() {
 		}
 		o := *ms.obl
 		o.Guard = c.And(append([]*smt.Term{ms.obl.Guard}, pins...)...)
-		st, _, _ := runSolver(solvers[ms.solver], ms.ex.buildQuery(&o, nil), 10)
+		ms.ex.noSlice = true
+		pinScript := ms.ex.buildQuery(&o, nil)
+		ms.ex.noSlice = false
+		st, _, _ := runSolver(solvers[ms.solver], pinScript, 10)
 		if st == "sat" {
 			ms.pins = append(ms.pins, pins...)
 			return
